@@ -320,10 +320,21 @@ func (s *seqRT) ruleIterIndex(ctor, argName string, boundOf func(operand AV) str
 	after := outs[0].St.Obj(r)
 	keyNext := substFields(keyV, ff(after))
 	nextForm, okNext := linForm(keyNext)
+	// fields the step never changes hold what the constructor put there (the operand, its length taken once):
+	// they are replaced by that value, so that the rule speaks about the bound and not about where it is kept
+	constF := map[string]AV{}
+	for _, n := range info.fields {
+		if v := ff(baseObj)[n]; v != nil && !keyFields0(keyV)[n] && sameAV(ff(after)[n], Sym{Name: "F:" + n}) {
+			constF[n] = v
+		}
+	}
 	bound := boundOf(Sym{Name: "F:" + opField})
+	if _, ok := constF[opField]; ok {
+		bound = boundOf(constF[opField])
+	}
 	wantNext := keyForm.plus(1)
 	// the result, normalised to "X < 0": must be (key+1) - bound
-	gotX, okG := guardForm(outs[0].Ret[0])
+	gotX, okG := guardForm(substSome(outs[0].Ret[0], constF))
 	wantX := wantNext.minusAtom(bound)
 	stepOK := okNext && okG && nextForm.equal(wantNext) && gotX.equal(wantX)
 	detail := fmt.Sprintf("expected key' = key+1 (%s) and the result equivalent to key' < %s; got key' = %s and result %s", wantNext, bound, canon(keyNext), canon(outs[0].Ret[0]))
@@ -359,6 +370,8 @@ func (s *seqRT) ruleIterIndex(ctor, argName string, boundOf func(operand AV) str
 			"expected the element "+want+" read at call time; got "+canon(valV))
 	}
 }
+
+func keyFields0(keyV AV) map[string]bool { return fieldSyms(keyV) }
 
 // condForm normalises a path condition over integers to "X < 0" (X linear) and returns X.
 func condForm(cd Cond) (linearForm, bool) {
